@@ -8,6 +8,26 @@ ROOT = os.path.dirname(os.path.dirname(os.path.abspath(__file__)))
 
 # id -> (category, technique, level text, level note, design ref)
 CHECKS = {
+    'C16': ('exploration',
+            'Hypothesis-generated schedules on a harness-owned event loop '
+            '(commands fed without waiting, k loop iterations, write-gate '
+            'back-pressure, virtual clock); shadow client vs ground truth at '
+            'quiescence without DONE',
+            'Schedules of <= 30 actions for 1-2 idling sessions and 1-2 '
+            'writers: a writer\'s APPEND / STORE / flag-and-EXPUNGE is fed to '
+            'the server, the loop runs 0-6 iterations, an idler\'s write gate '
+            'is closed or opened (back-pressure while a notification is being '
+            'written). At the end the gates are opened and the loop runs '
+            'until nothing is runnable (maildir: plus 3 virtual seconds) - no '
+            'DONE, no further mailbox activity; each idler\'s shadow client '
+            '(count, UIDs by position, flags) must equal a probe dump and all '
+            'untagged data must satisfy the C01 client-side assertions; DONE '
+            'must give the tagged OK and any other line the tagged BAD. dict '
+            '(event driven) and maildir (1 s poll). Sampled schedules.',
+            'Asyncio subsystem only; the harness produces only schedules a '
+            'real loop can produce; quiescence read from loop._ready / '
+            'loop._scheduled.',
+            'DESIGN.md section 3, C16'),
     'C17': ('exploration',
             'Hypothesis-generated select/examine/close/reconnect/arrival '
             'histories for three sessions; invariant over the whole history '
